@@ -59,9 +59,10 @@ def job(j):
     levels, target, nsec, decoy, partial, flavour, seed = j[:7]
     silent = j[7] if len(j) > 7 else False
     hashsize = j[8] if len(j) > 8 else 16
+    moved = j[9] if len(j) > 9 else False      # the original is removed before the sync: the look-alike poses as a MOVE
     cfg = Config(levels=levels, ndisks=2, hashsize=hashsize)
     v = []
-    where = "%s nsec=%d decoy=%s partial=%s silent-error-in-stripe=%s hashsize=%d %s" % (target, nsec, decoy, partial, silent, hashsize, " ".join(flavour))
+    where = "%s nsec=%d decoy=%s partial=%s silent-error-in-stripe=%s hashsize=%d%s %s" % (target, nsec, decoy, partial, silent, hashsize, " original-removed" if moved else "", " ".join(flavour))
     with labmod.Lab(cfg, seed=seed) as L:
         td, tp = TARGETS[target]
         od = "d2" if td == "d1" else "d1"
@@ -69,6 +70,8 @@ def job(j):
         orig = L.read("d1", "dir/a")
         dbytes = decoy_bytes(orig, decoy)
         L.write(td, tp, dbytes, mt)
+        if moved:
+            L.rm("d1", "dir/a")
         if silent:
             # every block of the long synced file on the OTHER disk is silently damaged (size and time-stamp kept): each stripe
             # the look-alike lands on then also holds one silent error, which sync may repair on the fly - without thereby
@@ -104,6 +107,17 @@ def job(j):
         if res.rc != 0 and "-h" in flavour and data_changed:
             if any(L.parity_stream(l) != par_before[l] for l in range(levels)):
                 v.append(dict(kind="prehash-mismatch-but-parity-overwritten", where=where))
+            # the user runs the same command again (the state saved by the stopped sync is what it starts from now)
+            for again in (2, 3):
+                res_n = L.run(flavour[0], *flavour[1:])
+                if any(L.parity_stream(l) != par_before[l] for l in range(levels)):
+                    v.append(dict(kind="prehash-mismatch-but-parity-overwritten", where=where + " (run %d of the same command)" % again, rc=res_n.rc))
+                    break
+                if res_n.rc == 0:
+                    v.append(dict(kind="prehash-mismatch-forgotten-by-rerun", where=where + " (run %d)" % again))
+                    break
+        if moved:
+            return dict(viols=v, outcome=(res.rc, copies, bool(data_changed)))
         if res.rc == 0 and decoy != "none" and copies and "-N" not in flavour:
             # a decoy taken for a copy must have produced an error
             v.append(dict(kind="decoy-copy-accepted-silently", where=where))
@@ -160,6 +174,9 @@ def run(ctx):
     # reduced hash size (the special hash markers are then indistinguishable from real hashes)
     jobs += [(l, t, ns, d, p, f, ctx.seed, False, 8) for l in levels[:1] for t in targets for ns in (0, 500) for d in decoys
              for p in ((False,) if tier == "quick" else (False, True)) for f in (FLAVOURS[:1] if tier == "quick" else FLAVOURS)]
+    # the look-alike poses as a move (original removed before the sync)
+    jobs += [(l, t, ns, d, False, f, ctx.seed, False, 16, True) for l in levels[:1] for t in targets for ns in (0, 500) for d in decoys
+             for f in FLAVOURS[:2]]
     evals = 0
     done = 0
     for j, r in par.pmap(job, jobs, deadline=ctx.deadline):
@@ -170,7 +187,7 @@ def run(ctx):
             ctx.nontrivial(j[:6] + j[7:])
         for v in r["viols"]:
             ctx.violation("C19/%s" % v["kind"], "%s: %s" % (v["kind"], v.get("where")),
-                          dict(levels=j[0], target=j[1], nsec=j[2], decoy=j[3], partial=j[4], flavour=j[5], silent=(j[7] if len(j) > 7 else False), hashsize=(j[8] if len(j) > 8 else 16), violation=v))
+                          dict(levels=j[0], target=j[1], nsec=j[2], decoy=j[3], partial=j[4], flavour=j[5], silent=(j[7] if len(j) > 7 else False), hashsize=(j[8] if len(j) > 8 else 16), moved=(j[9] if len(j) > 9 else False), violation=v))
         if done in (5, 60):
             ctx.sample(dict(levels=j[0], target=j[1], nsec=j[2], decoy=j[3], partial_source=j[4], flavour=j[5], outcome=r["outcome"]))
     if done < len(jobs):
@@ -184,7 +201,7 @@ def run(ctx):
 
 
 def replay(r):
-    out = job((r["levels"], r["target"], r["nsec"], r["decoy"], r["partial"], tuple(r["flavour"]), 0, r.get("silent", False), r.get("hashsize", 16)))
+    out = job((r["levels"], r["target"], r["nsec"], r["decoy"], r["partial"], tuple(r["flavour"]), 0, r.get("silent", False), r.get("hashsize", 16), r.get("moved", False)))
     for v in out["viols"]:
         print("  ", v)
     return not out["viols"]
